@@ -687,20 +687,15 @@ def simplify_constrained_range(source: str) -> str:
         else:
             continue
 
-        if core.match_template(args[0], ast.Constant(value=int)):
-            start = args[0].value
-        else:
-            start = None
+        # The range can only be narrowed when all of its bounds are known integers, and when
+        # every integer between them is visited.
+        try:
+            start, stop, step = (core.literal_value(arg) for arg in args)
+        except ValueError:
+            continue
 
-        if core.match_template(args[1], ast.Constant(value=int)):
-            stop = args[1].value
-        else:
-            stop = None
-
-        if core.match_template(args[2], ast.Constant(value=int)):
-            step = args[2].value
-        else:
-            step = None
+        if not all(type(value) is int for value in (start, stop, step)) or step != 1:
+            continue
 
         target_name = comp.target.id
 
@@ -751,9 +746,6 @@ def simplify_constrained_range(source: str) -> str:
         ),)
         templates = (gt_template, lt_template, gte_template, lte_template, eq_template)
 
-        if core.match_template(step, ast.Constant(value=int)) and step.value < 0:
-            continue
-
         redundant_conditions = set()
         for condition in core.filter_nodes(conditions, templates):
             if isinstance(condition.left, ast.Constant):
@@ -777,7 +769,7 @@ def simplify_constrained_range(source: str) -> str:
                     redundant_conditions.add(condition)
 
             elif core.match_template(condition, lte_template):
-                if stop is None or comparator.value <= stop:
+                if stop is None or comparator.value < stop:
                     stop = comparator.value + 1
                     redundant_conditions.add(condition)
 
